@@ -9,7 +9,8 @@ CONSTANTS Shard, NShards, OutFile, Seed, Stride, Stride3
 
 BadExprs == << <<97, 46>>, <<91, 48>>, <<34, 97>>, <<97, 32, 98>>, <<>>, <<35>>, <<97, 40>>, <<96, 120, 96>>, <<97, 91, 63, 93>>, <<-255>>, <<97, 124, 124>> >>
 BadInputs == << <<>>, <<123>>, <<110, 117, 108>>, <<91, 49, 44, 93>>, <<39, 97, 39>>, <<123, 34, 97, 34, 58, 125>>, <<49, 32, 50>> >>
-DocsCli == <<O2(cA, O2(cA, I(1), cB, A2(I(1), I(2))), cB, A3(O1(cA, I(1)), I(2), A1(I(3)))), A3(I(3), I(1), I(2)), Null, O1(cA, A0), S(cEacute), Half,
+DocsCli == <<O2(cA, S(<<49, 48, 48, 37>>), <<37, 100>>, A2(S(<<37, 115>>), S(<<60, 38, 62>>))),
+             O2(cA, O2(cA, I(1), cB, A2(I(1), I(2))), cB, A3(O1(cA, I(1)), I(2), A1(I(3)))), A3(I(3), I(1), I(2)), Null, O1(cA, A0), S(cEacute), Half,
              O2(cA, A2(O1(cA, I(2)), O1(cA, I(1))), cB, A2(S(cB), S(cA)))>>
 Channels == <<"file", "stdin">>
 GoodCase(g, i) ==
